@@ -190,6 +190,13 @@ fn plans_c14(tier: Tier) -> Vec<Plan> {
     let mut c2 = c.clone();
     c2.variant = 2;
     v.push(Plan { cfg: c2, depth_by_devs: if q { vec![4] } else { vec![6, 5] } });
+    // two offenders ahead of the victim on the same filter (waiters list and ready queue
+    // in the order m, n, s): both may end in the turn in which all three were woken
+    let mut c3 = mk("C14", 3, 4, &["w"], &["w"]);
+    c3.prelude.push(Act::Sub { c: 2, f: 0, qos: 0 });
+    c3.prelude.push(Act::Sub { c: 3, f: 0, qos: 0 });
+    c3.prelude.push(Act::Sub { c: 1, f: 0, qos: 1 });
+    v.push(Plan { cfg: c3, depth_by_devs: if q { vec![1, 3] } else { vec![3, 5] } });
     v
 }
 
